@@ -1,9 +1,12 @@
 """C07 -- the source emits a conformant, complete and size-bounded PDU stream (H-SRC)."""
 from __future__ import annotations
 
+import copy
+
 from cfdppy.handler.source import TransactionStep as SStep
 from spacepackets.cfdp import ChecksumType, ConditionCode, CrcFlag, Direction, LargeFileFlag
 from spacepackets.cfdp.pdu.helper import PduFactory
+from spacepackets.util import UnsignedByteField
 
 from vf import rigs, symex
 from vf.explore import Spec
@@ -162,7 +165,17 @@ def h_ack_of_finished(ctx, id_w, seq_w):
         o = rig.sm()
         if "EOF" in o.kinds():
             break
-    conf = rig.h.pdu_conf
+    conf = copy.copy(rig.h.pdu_conf)
+    # the peer may encode its own PDU headers differently (same values): the source's PDUs must not follow it
+    peer = ctx.pick("peer", ["same", "other_crc", "other_widths"])
+    if peer == "other_crc":
+        conf.crc_flag = CrcFlag.NO_CRC if cfg["crc"] else CrcFlag.WITH_CRC
+    elif peer == "other_widths":
+        iw = 8 if id_w != 8 else 2
+        sw = 4 if seq_w != 4 else 2
+        conf.source_entity_id = UnsignedByteField(conf.source_entity_id.value, iw)
+        conf.dest_entity_id = UnsignedByteField(conf.dest_entity_id.value, iw)
+        conf.transaction_seq_num = UnsignedByteField(conf.transaction_seq_num.value, sw)
     o = rig.sm(w.wire(rigs.ack(conf, rigs.DirectiveType.EOF_PDU)))
     ctx.prop("eof_ack_accepted", o.exc is None, lambda: {"sig": rigs.exc_name(o.exc)})
     cond = ctx.pick("fin_cond", [ConditionCode.NO_ERROR, ConditionCode.FILE_CHECKSUM_FAILURE])
@@ -178,6 +191,8 @@ def h_ack_of_finished(ctx, id_w, seq_w):
              and a.crc_flag == (CrcFlag.WITH_CRC if cfg["crc"] else CrcFlag.NO_CRC))
     ctx.prop("ack_ids", a.source_entity_id.value == ids.src.value and a.dest_entity_id.value == ids.dst.value
              and a.source_entity_id.byte_len == ids.id_w and a.dest_entity_id.byte_len == ids.id_w)
+    ctx.prop("ack_seq", a.transaction_seq_num.value == rig.h.pdu_conf.transaction_seq_num.value
+             and a.transaction_seq_num.byte_len == seq_w)
     ctx.prop("ack_parsable", parsable(w, a))
 
 
